@@ -46,6 +46,7 @@ Proof.
          let K := fresh "K" in pose proof (start_claim_all_st k a b) as K; rewrite H in K; cbn [fst] in K; clear H end;
   match goal with H : millis64 _ = _ |- _ => apply millis64_st' in H end;
   match goal with |- context [set_heartbeat_all ?k ?a ?b ?c ?d] => pose proof (set_heartbeat_all_st k a b c d) end;
+  match goal with |- context [resync_heartbeats ?k ?a ?b] => pose proof (resync_heartbeats_st k a b) end;
   (split; [|right]); unfold rstatic, nstatic in *; prj; intuition congruence.
 Qed.
 
